@@ -4,10 +4,10 @@ Read from the *runtime objects* of the working tree (so a refactoring that keeps
 
   marshal.pad                 type code -> alignment        (probed: len(pad[c](x)) for x in 0..63 must be the
                                                               padding to a multiple of one a in {1,2,4,8})
-  marshal.unmarshallers       type code -> kind             the function object is compared with marshal.unmarshal_string /
-                                                              _signature / _array / _struct / _variant; another function that
-                                                              behaves like the string / signature reader on probes (incl. a
-                                                              lying length) is classified as such; every other entry is
+  marshal.unmarshallers       type code -> kind             ALWAYS by behaviour on probes (never by function identity): string /
+                                                              signature / array / struct / variant each have a small family of
+                                                              probes incl. lying lengths that pin width, byte order and
+                                                              unsignedness of the length field; every other entry is
                                                               probed as a fixed-size reader: the smallest buffer it accepts at
                                                               offset 0 (`need`), the byte count it reports (`adv`), and the class
                                                               of the value (0 int/bool, 1 float, 2 None for an empty fd list)
@@ -27,9 +27,13 @@ class TranslatorError(Exception):
 
 
 def lchar(c):
-    if not (isinstance(c, str) and len(c) == 1 and 32 <= ord(c) < 127 and c not in "'\\"):
+    if not (isinstance(c, str) and len(c) == 1):
         raise TranslatorError('unexpected table key %r' % (c,))
-    return "'%s'" % c
+    if 32 <= ord(c) < 127 and c not in "'\\":
+        return "'%s'" % c
+    if 0xD800 <= ord(c) <= 0xDFFF:
+        raise TranslatorError('surrogate table key %r' % (c,))
+    return '(Char.ofNat %d)' % ord(c)
 
 
 def probe_align(f):
@@ -90,24 +94,61 @@ def probe_fixed(code, f):
     return need, adv, cls
 
 
-def probe_stringlike(code, f):
-    """'string' / 'signature' for a reader that behaves like unmarshal_string / unmarshal_signature, else None."""
+def _is(f, args, expected):
     try:
-        r = f(code, b'\x03\x00\x00\x00abc\x00', 0, True, [])
-        r2 = f(code, b'\x00\x00\x00\x02hi\x00', 0, False, [])
-        if r == (8, 'abc') and r2 == (7, 'hi'):
-            r3 = f(code, b'\xff\xff\xff\xffab', 0, True, [])      # a lying length: the slice clamps
-            if r3 == (4 + 0xffffffff + 1, 'ab'):
-                return 'string'
+        return f(*args) == expected
     except Exception:
-        pass
+        return False
+
+
+def _raises(f, args, exc):
     try:
-        r = f(code, b'\x03abc\x00', 0, True, [])
-        r3 = f(code, b'\xffab', 0, False, [])
-        if r == (5, 'abc') and r3 == (1 + 255 + 1, 'ab'):
-            return 'signature'
+        f(*args)
+    except exc:
+        return True
     except Exception:
-        pass
+        return False
+    return False
+
+
+def classify(code, f):
+    """Kind of `unmarshallers[code]` BY BEHAVIOUR (always probed, whatever the function object is, so that a wrapper,
+    a decorator or an own `def` with the same behaviour is accepted and a changed reader is not):
+    string / signature / array / struct / variant, else None (-> probed as a fixed-size reader).
+    Each family includes a lying-length probe that pins width, byte order and UNSIGNEDNESS of the length field."""
+    if (_is(f, (code, b'\x03\x00\x00\x00abc\x00', 0, True, []), (8, 'abc'))
+            and _is(f, (code, b'\x00\x00\x00\x02hi\x00', 0, False, []), (7, 'hi'))
+            and _is(f, (code, b'zz\x01\x00\x00\x00q\x00', 2, True, []), (6, 'q'))
+            and _is(f, (code, b'\xff\xff\xff\xffab', 0, True, []), (4 + 0xffffffff + 1, 'ab'))     # slice clamps, unsigned
+            and _is(f, (code, b'\x80\x00\x00\x00ab', 0, False, []), (4 + 0x80000000 + 1, 'ab'))
+            and _raises(f, (code, b'\x03\x00\x00', 0, True, []), struct.error)):
+        return 'string'
+    if (_is(f, (code, b'\x03abc\x00', 0, True, []), (5, 'abc'))
+            and _is(f, (code, b'z\x01q\x00', 1, False, []), (3, 'q'))
+            and _is(f, (code, b'\xffab', 0, False, []), (1 + 255 + 1, 'ab'))                               # byte >= 128: unsigned
+            and _is(f, (code, b'\x80ab', 0, True, []), (1 + 128 + 1, 'ab'))
+            and _raises(f, (code, b'', 0, True, []), struct.error)):
+        return 'signature'
+    if (_is(f, ('ay', b'\x02\x00\x00\x00\x07\x09', 0, True, []), (6, [7, 9]))
+            and _is(f, ('ay', b'\x00\x00\x00\x01\x07', 0, False, []), (5, [7]))
+            and _is(f, ('au', b'\x00\x00\x00\x00', 0, True, []), (4, []))
+            and _is(f, ('ax', b'\x08\x00\x00\x00' + b'\x00' * 4 + b'\x05' + b'\x00' * 7, 0, True, []), (16, [5]))  # pad to the element
+            and _raises(f, ('ay', b'\xff\xff\xff\xff\x07', 0, True, []), struct.error)                   # unsigned: runs into the end
+            and _raises(f, ('ay', b'\x00\x00\x00\x80\x07', 0, True, []), struct.error)
+            and _raises(f, ('ay', b'\x02\x00\x00', 0, True, []), struct.error)):
+        return 'array'
+    op, cl = (code, {'(': ')', '{': '}'}.get(code, ')'))
+    if (_is(f, (op + cl, b'', 0, True, []), (0, []))
+            and _is(f, (op + 'y' + cl, b'\x07', 0, True, []), (1, [7]))
+            and _is(f, (op + 'yu' + cl, b'\x07\x00\x00\x00\x00\x00\x00\x09', 0, False, []), (8, [7, 9]))
+            and _is(f, (op + 'y' + cl, b'zz\x07', 2, True, []), (1, [7]))):
+        return 'struct'
+    if (_is(f, ('v', b'\x01y\x00\x05', 0, True, []), (4, 5))
+            and _is(f, ('v', b'\x01u\x00\x00\x00\x00\x00\x09', 0, False, []), (8, 9))                 # pad to the value
+            and _is(f, ('v', b'\x02yy\x00\x05\x06', 0, True, []), (6, 5))                               # first value only
+            and _raises(f, ('v', b'\x00\x00', 0, True, []), IndexError)
+            and _raises(f, ('v', b'\x80' + b'y' * 10, 0, True, []), struct.error)):                         # byte >= 128: unsigned
+        return 'variant'
     return None
 
 
@@ -131,27 +172,26 @@ def emit(repo):
             if probe_align(f) != 8:
                 raise TranslatorError("pad['header'] is not 8")
             continue
+        if not (isinstance(k, str) and len(k) == 1):
+            continue          # `tcode = ct[0]` is one character: no other key can be selected
         items.append('(%s, %d)' % (lchar(k), probe_align(f)))
     w("/-- `marshal.pad` (without the 'header' entry, which no one-character type code can select): code -> alignment. -/")
     w('def alignTable : List (Char × Nat) :=')
     w('  [' + ', '.join(items) + ']')
     w('')
-    special = [(marshal.unmarshal_string, 'string'), (marshal.unmarshal_signature, 'signature'),
-               (marshal.unmarshal_array, 'array'), (marshal.unmarshal_struct, 'struct'),
-               (marshal.unmarshal_variant, 'variant')]
     kinds = []
     for k, f in marshal.unmarshallers.items():
-        kind = None
-        for g, name in special:
-            if f is g:
+        try:
+            name = classify(k, f)
+            if name is not None:
                 kind = '.' + name
-        if kind is None:
-            sl = probe_stringlike(k, f)
-            if sl is not None:
-                kind = '.' + sl
-        if kind is None:
-            need, adv, cls = probe_fixed(k, f)
-            kind = '.fixed %d %d %d' % (need, adv, cls)
+            else:
+                need, adv, cls = probe_fixed(k, f)
+                kind = '.fixed %d %d %d' % (need, adv, cls)
+        except TranslatorError:
+            raise
+        except Exception as e:
+            raise TranslatorError('unmarshallers[%r] (%s): probing raised %r' % (k, getattr(f, '__name__', f), e))
         kinds.append('(%s, %s)' % (lchar(k), kind))
     w('/-- `marshal.unmarshallers`: code -> kind of reader. -/')
     w('def kindTable : List (Char × UKind) :=')
